@@ -118,10 +118,26 @@ def check_design(ctx, d, steps, regmap, memmap, label):
                         col.append(v)
                 expected[o] = col
             buf = io.StringIO()
-            sim2.step_multiple(provided, expected, file=buf)
+            # nsteps: absent, equal to the number of values supplied (the documented "less than or equal"), or fewer
+            avail = len(steps) - h
+            ns = ctx.rng.choice([None, avail, avail, max(1, avail - 1)]) if (d.inputs and avail >= 1) else None
+            ctx.count('step_multiple-nsteps', 'none' if ns is None else ('all' if ns == avail else 'fewer'))
+            try:
+                if ns is None:
+                    sim2.step_multiple(provided, expected, file=buf)
+                else:
+                    sim2.step_multiple(provided, expected, nsteps=ns, file=buf)
+            except pyrtl.PyrtlError as e:
+                ctx.violation('step_multiple-raises:' + nm, '%s: step_multiple with %d values per input and nsteps=%r raised PyrtlError: %s' % (
+                    nm, avail, ns, str(e)[:120]), dict(rp, nsteps=ns))
+                ok = False
+                continue
+            taken = h + (avail if ns is None else ns)
+            wrong = [w_ for w_ in wrong if w_[0] < taken - h]
             t2 = {w: list(v) for w, v in sim2.tracer.trace.items()}
-            if t2 != base_trace:
-                ctx.violation('step_multiple-vs-step:' + nm, '%s: step_multiple trace differs from stepping one at a time' % nm, rp)
+            if t2 != {w: v[:taken] for w, v in base_trace.items()}:
+                ctx.violation('step_multiple-vs-step:' + nm, '%s: step_multiple (nsteps=%r) trace differs from stepping one at a time' % (nm, ns),
+                              dict(rp, nsteps=ns))
                 ok = False
             rep = []
             for line in buf.getvalue().split('\n')[2:]:
